@@ -78,6 +78,7 @@ SPECIFICATION TraceSpec
 POSTCONDITION TraceAccepted
 """
 
+JVM = {"JDK_JAVA_OPTIONS": "-Xmx3g"}  # the machine is shared: cap the heap of every JVM this driver starts
 VALUES = (-2, 0, 1, 2, 3, 4)
 FAS = ((1, 2), (3, 4), (99, 100))
 RAS = (-1, 1)
@@ -651,7 +652,7 @@ def validate(ctx, records, tag, chunk=1500):
 
     def one(args):
         k, ch = args
-        res, rej = ctx.validate_trace("Trace_OverSample", TRACE_CFG, ch, tag=f"{tag}-{k}", timeout=1800)
+        res, rej = ctx.validate_trace("Trace_OverSample", TRACE_CFG, ch, tag=f"{tag}-{k}", timeout=1800, env={"JDK_JAVA_OPTIONS": "-Xmx2g"})
         return rej
 
     with cf.ThreadPoolExecutor(max_workers=min(12, len(chunks) or 1)) as ex:
@@ -697,7 +698,7 @@ def enumerate_a(ctx, fams):
     defs = (f"MCFamilies == {_families_def(fams)}\n"
             f"MCGeoms == {{{', '.join(_tla_seq(g) for g in GEOMS)}}}\n"
             f"MCCoefs == {_tla_set((-2, 0, 1, 3))}\n")
-    res = ctx.tlc("OverSample", MC_A_CFG, defs=defs, tag="MC_OverSampleA", timeout=3000, workers=8)
+    res = ctx.tlc("OverSample", MC_A_CFG, defs=defs, tag="MC_OverSampleA", timeout=3000, workers=8, env=JVM)
     insts = res.by_kind("inst")
     # families may overlap (a uniform map is also a per-pixel map): TLC's state set removes duplicates
     uniq = {(r["h"], r["w"], tuple(r["u"]), tuple(r["sub"]), r["sy"], r["sx"], r["oy"], r["ox"]) for r in insts}
@@ -709,14 +710,13 @@ def enumerate_a(ctx, fams):
 
 def run(ctx):
     quick = ctx.quick
-    rng = np.random.default_rng(ctx.seed)
     fams = families(quick)
     sim_scheds = [(2, 4), (4, 2), (2, 4, 8), (4, 2, 8), (2, 8, 16), (2, 4, 8, 16), (16, 2, 8, 4)]
     ctx.bounds = {
         "A_families(H,W,sub sizes,uniform-only,geometries(my,mx,oy,ox))": [[h, w, list(s), uni, [list(g) for g in gs]] for h, w, s, uni, gs in fams], "A_random_instances": 60 if quick else 600, "A_random_max_side": 6,
         "B_exhaustive": "np<=2 x schedule length 2 (fa 1/2, 3/4); np=1 x lengths 3,4" if quick else "np<=2 x length 2; np=1 x length 4; np<=2 x length 3 and np<=3 x length 2 with values -2,0,1,2",
         "B_values": list(VALUES), "B_fa": [list(f) for f in FAS], "B_ra": ["none", 1],
-        "B_simulated_behaviours": 240 if quick else 3000, "B_simulate_schedules": [list(s) for s in sim_scheds], "B_simulate_np": 3,
+        "B_simulated_behaviours": 240 if quick else 2000, "B_simulate_schedules": [list(s) for s in sim_scheds], "B_simulate_np": 3,
         "B_random_tables": 90 if quick else 900, "B_random_functions": 60 if quick else 600,
     }
 
@@ -730,25 +730,48 @@ def run(ctx):
             d2 = _b_defs([(2, 4)])
             if quick:  # 99/100 is covered by the one-pixel run below
                 d2 = d2.replace(", <<99, 100>>", "")
-            ctx.tlc("OverSample", MC_B_CFG % 2, defs=d2, tag="MC_OverSampleB_np2", timeout=3000, workers=6)
+            ctx.tlc("OverSample", MC_B_CFG % 2, defs=d2, tag="MC_OverSampleB_np2", timeout=3000, workers=6, env=JVM)
             ctx.tlc("OverSample", MC_B_CFG % 1, defs=_b_defs([(2, 4, 8), (2, 4, 8, 16)] if quick else [(2, 4, 8, 16)]),
-                    tag="MC_OverSampleB_np1", timeout=3000, workers=4, coverage=True)
+                    tag="MC_OverSampleB_np1", timeout=3000, workers=4, coverage=True, env=JVM)
             if not quick:
                 ctx.tlc("OverSample", MC_B_CFG % 2, defs=_b_defs([(2, 4, 8)]).replace(*small_values),
-                        tag="MC_OverSampleB_np2_len3", timeout=3000, workers=6)
+                        tag="MC_OverSampleB_np2_len3", timeout=3000, workers=6, env=JVM)
                 ctx.tlc("OverSample", MC_B_CFG % 3, defs=_b_defs([(2, 4)]).replace(*small_values),
-                        tag="MC_OverSampleB_np3", timeout=3000, workers=6)
+                        tag="MC_OverSampleB_np3", timeout=3000, workers=6, env=JVM)
         except BaseException as e:  # noqa
             bg_err.append(e)
 
+    # ---- Part B simulation (behaviours to replay), also in the background
+    nsim = ctx.bounds["B_simulated_behaviours"]
+    prefix = ctx.work / "simB"
+
+    def simulate_b():
+        try:
+            ctx.tlc("OverSample", MC_B_CFG % 3, defs=_b_defs(sim_scheds), tag="SIM_OverSampleB", timeout=3000, workers=1, env=JVM,
+                    simulate=f"file={prefix},num={nsim}", depth=8, seed=ctx.seed)
+        except BaseException as e:  # noqa
+            bg_err.append(e)
+
+    th_sim = threading.Thread(target=simulate_b)
+    th_sim.start()
     th = threading.Thread(target=exhaustive_b)
     th.start()
 
-    # ---- Part B simulation: behaviours to replay
-    nsim = ctx.bounds["B_simulated_behaviours"]
-    prefix = ctx.work / "simB"
-    ctx.tlc("OverSample", MC_B_CFG % 3, defs=_b_defs(sim_scheds), tag="SIM_OverSampleB", timeout=1800, workers=1,
-            simulate=f"file={prefix},num={nsim}", depth=8, seed=ctx.seed)
+    # ---- Part A: enumerate, replay
+    insts = enumerate_a(ctx, fams)
+    ctx.exhaustive = True
+    rnd = random_instances_a(np.random.default_rng([ctx.seed, 1]), ctx.bounds["A_random_instances"], ctx.bounds["A_random_max_side"])
+    allinst = insts + rnd
+    n_func = 2
+    groups = [(allinst[k : k + 40], ctx.seed, n_func) for k in range(0, len(allinst), 40)]
+    a_out = []
+    for part in core.pmap(_many_a, groups):
+        a_out.extend(part)
+
+    # ---- Part B: behaviours -> tables -> real code
+    th_sim.join()
+    if bg_err:
+        raise bg_err[0]
     files = sorted(glob.glob(str(prefix) + "_*"))
     if len(files) < nsim // 2:
         raise core.MachineryError(f"TLC simulation wrote {len(files)} behaviours, expected about {nsim}")
@@ -758,19 +781,9 @@ def run(ctx):
         if r is not None:
             b_recs.append(r)
     n_beh = len(b_recs)
-    b_recs += random_iterate_records(rng, ctx.bounds["B_random_tables"], 5)
-    b_recs += random_iterate_fn_records(rng, ctx.bounds["B_random_functions"], 4)
-
-    # ---- Part A: enumerate, replay, validate
-    insts = enumerate_a(ctx, fams)
-    ctx.exhaustive = True
-    rnd = random_instances_a(rng, ctx.bounds["A_random_instances"], ctx.bounds["A_random_max_side"])
-    allinst = insts + rnd
-    n_func = 2 if quick else 3
-    groups = [(allinst[k : k + 40], ctx.seed, n_func) for k in range(0, len(allinst), 40)]
-    a_out = []
-    for part in core.pmap(_many_a, groups):
-        a_out.extend(part)
+    rng_b = np.random.default_rng([ctx.seed, 2])
+    b_recs += random_iterate_records(rng_b, ctx.bounds["B_random_tables"], 5)
+    b_recs += random_iterate_fn_records(rng_b, ctx.bounds["B_random_functions"], 4)
     b_groups = [b_recs[k : k + 10] for k in range(0, len(b_recs), 10)]
     b_out = []
     for part in core.pmap(_many_b, b_groups):
